@@ -74,17 +74,31 @@ func checkURLOutput(what string, in, out []byte) error {
 	return nil
 }
 
+// triples lists the %XX triples of b, scanned left to right.
+func triples(b []byte) []string {
+	var out []string
+	for i := 0; i+2 < len(b); i++ {
+		if b[i] == '%' && isHex(b[i+1]) && isHex(b[i+2]) {
+			out = append(out, string(b[i:i+3]))
+			i += 2
+		}
+	}
+	return out
+}
+
 func lawURLEscape(in []byte) error {
 	out := util.URLEscape(in, false)
 	lastChanged = !bytes.Equal(in, out)
 	valid := utf8.Valid(in)
-	if valid {
+	{
 		if err := checkURLOutput("URLEscape", in, out); err != nil {
 			return err
 		}
-		for _, c := range out {
-			if c >= 0x80 {
-				return kit.Violf("urlescape-non-ascii", "URLEscape(%q) = %q is not pure ASCII", in, out)
+		if valid {
+			for _, c := range out {
+				if c >= 0x80 {
+					return kit.Violf("urlescape-non-ascii", "URLEscape(%q) = %q is not pure ASCII", in, out)
+				}
 			}
 		}
 		// existing %XX triples are preserved: splitting the input at its valid
@@ -100,11 +114,26 @@ func lawURLEscape(in []byte) error {
 			}
 		}
 		want = append(want, util.URLEscape(in[last:], false)...)
-		if !bytes.Equal(out, want) {
+		if valid && !bytes.Equal(out, want) {
 			return kit.Violf("urlescape-triples", "URLEscape(%q) = %q, but escaping the pieces between its %%XX triples gives %q", in, out, want)
 		}
+		// for input that is not valid UTF-8 only what the statement says: the %XX triples of the input occur in
+		// the output, in order (the output may hold further triples of its own)
+		if !valid {
+			ti, to := triples(in), triples(out)
+			j := 0
+			for _, x := range ti {
+				for j < len(to) && to[j] != x {
+					j++
+				}
+				if j == len(to) {
+					return kit.Violf("urlescape-triple-lost", "URLEscape(%q) = %q: the %%XX triple %q of the input is not preserved", in, out, x)
+				}
+				j++
+			}
+		}
 	}
-	if valid {
+	{
 		if again := util.URLEscape(out, false); !bytes.Equal(again, out) {
 			return kit.Violf("urlescape-idempotent", "URLEscape(%q) = %q, applied again %q", in, out, again)
 		}
@@ -544,7 +573,9 @@ func TestLabels(t *testing.T) {
 func TestFilters(t *testing.T) {
 	kit.Rapid(t, "filters", 150000, 6000000, func(t *rapid.T) {
 		ks := append([]string{}, collidingSets[rapid.IntRange(0, len(collidingSets)-1).Draw(t, "set")]...)
-		ks = append(ks, "id", "class", "", "data-x", "ab", "abc", "abd", "b")
+		// besides the bucket collisions: pairs with the same full 64-bit djb2 hash (h*33+c: bytes x,y and x+1,y-33
+		// are interchangeable), each collider right after its partner so that the two are looked up back to back
+		ks = append(ks, "id", "jC", "class", "clat@", "", "data-x", "ab", "bA", "abc", "bAc", "abd", "b", "data-ab", "data-bA")
 		nk := len(ks)
 		var ops []string
 		list := func(label string) string {
